@@ -102,7 +102,7 @@ func (ix *idxEngine) table() []tableEntry {
 		{
 			ID: "T3 callback time constants",
 			Match: func(ix *idxEngine, o *idxOb) bool {
-				return o.Kind == "PANIC" && o.Fn.Name() == "invokePropertyCallbacks"
+				return o.Kind == "PANIC" && isAnchorFn(o.Fn, "", "", "invokePropertyCallbacks")
 			},
 			Premise: func(ix *idxEngine, o *idxOb) (bool, string) {
 				// every value of an integer parameter that decides whether the panic is reached is a constant at
@@ -147,7 +147,7 @@ func (ix *idxEngine) table() []tableEntry {
 		{
 			ID: "T4 property key misuse",
 			Match: func(ix *idxEngine, o *idxOb) bool {
-				return o.Kind == "PANIC" && o.Fn.Name() == "withValue" && funcPkgPath(o.Fn) == modPath
+				return o.Kind == "PANIC" && isAnchorFn(o.Fn, "", "", "withValue")
 			},
 			Premise: func(ix *idxEngine, o *idxOb) (bool, string) {
 				// every key the module itself passes to SetProperty is a non-nil package-level pointer (comparable)
@@ -202,7 +202,7 @@ func (ix *idxEngine) table() []tableEntry {
 		{
 			ID: "T5 decoration field names",
 			Match: func(ix *idxEngine, o *idxOb) bool {
-				return o.Kind == "PANIC" && o.Fn.Name() == "decorateDefaultTo"
+				return o.Kind == "PANIC" && isAnchorFn(o.Fn, "texttable/decoration", "", "decorateDefaultTo")
 			},
 			Premise: func(ix *idxEngine, o *idxOb) (bool, string) {
 				dec := c.Named("texttable/decoration", "Decoration")
@@ -252,7 +252,7 @@ func (ix *idxEngine) table() []tableEntry {
 				if o.Kind != "IDX" && o.Kind != "SLC" {
 					return false
 				}
-				inBuilder := o.Fn.Name() == "commonRenderedLine"
+				inBuilder := isAnchorFn(o.Fn, "texttable/decoration", "emitter", "commonRenderedLine")
 				if !inBuilder {
 					// or in a helper of the same package that the builder hands its field list to
 					if em := c.Named("texttable/decoration", "emitter"); em != nil {
@@ -289,7 +289,7 @@ func (ix *idxEngine) table() []tableEntry {
 		{
 			ID: "T7 column widths are non-negative",
 			Match: func(ix *idxEngine, o *idxOb) bool {
-				return o.Kind == "NEG" && o.Fn.Name() == "commonTemplateLine" && strings.Contains(o.What, "colWidths")
+				return o.Kind == "NEG" && isAnchorFn(o.Fn, "texttable/decoration", "emitter", "commonTemplateLine") && strings.Contains(o.What, anchorFieldName("texttable/decoration", "emitter", "colWidths"))
 			},
 			Premise: func(ix *idxEngine, o *idxOb) (bool, string) {
 				return ix.colWidthsPremise()
